@@ -38,6 +38,11 @@ type Conn struct {
 	SlowReaderMs int `json:"slow_reader_ms,omitempty"`
 }
 
+// stalledMs as SlowReaderMs: the client never drains its socket (it stopped reading for
+// good). Nothing can be delivered to it; what remains of the property is that Shutdown
+// returns when its context expires.
+const stalledMs = 60000
+
 type Scenario struct {
 	MaxInvoke   int32  `json:"max_invoke"`
 	QueueCap    int    `json:"queue_cap"`
@@ -71,7 +76,7 @@ func draw(rt *rapid.T) Case {
 			}
 			if nr > 0 && rapid.IntRange(0, 3).Draw(rt, "slowReader") == 0 {
 				cn.BigReply = rapid.IntRange(0, nr-1).Draw(rt, "bigAt")
-				cn.SlowReaderMs = rapid.SampledFrom([]int{700, 1300, 2500}).Draw(rt, "slowReaderMs")
+				cn.SlowReaderMs = rapid.SampledFrom([]int{700, 1300, 1300, 2500, 2500, stalledMs}).Draw(rt, "slowReaderMs")
 			}
 			s.Conns = append(s.Conns, cn)
 		}
@@ -217,7 +222,12 @@ func runScenario(si int, s Scenario) scenResult {
 			fmt.Printf("GOROUTINES-AT-3S\n%s\n", buf[:n])
 		}()
 	}
+	stalled := false
 	for i, g := range gates {
+		if g != nil && s.Conns[i].SlowReaderMs >= stalledMs {
+			stalled = true
+			continue
+		}
 		if g != nil {
 			go func(g chan struct{}, ms int) { time.Sleep(time.Duration(ms) * time.Millisecond); close(g) }(g, s.Conns[i].SlowReaderMs)
 		}
@@ -232,6 +242,13 @@ func runScenario(si int, s Scenario) scenResult {
 	d.mu.Lock()
 	activeAtReturn := d.active
 	d.mu.Unlock()
+	if stalled {
+		// a client that never drains: the only obligation left is the bound on Shutdown
+		if limit := time.Duration(s.CtxTimeoutS)*time.Second + time.Second; took > limit {
+			res.f = stat.Failf("shutdown-too-slow", "scenario %d: Shutdown took %v with a %d s context while one client had stopped reading", si, took.Round(10*time.Millisecond), s.CtxTimeoutS)
+		}
+		return res
+	}
 	// "... or when its context expires, whichever is first": when Shutdown ran into its
 	// context, unanswered requests and open connections are legitimate
 	expired := took >= time.Duration(s.CtxTimeoutS)*time.Second-300*time.Millisecond
@@ -337,7 +354,9 @@ func runScenario(si int, s Scenario) scenResult {
 	}
 	// all handlers finish within ~0.4 s * queue; the drain rule: idle 2 s + polling
 	if !lastHandler.IsZero() {
-		if late := took - (lastHandler.Sub(t0) + 2*time.Second + 1500*time.Millisecond); late > 0 && lastHandler.After(t0) && !expired {
+		// (handlers still running when Shutdown returned were given up by the framework after
+		// the handle timeout; the last *finished* handler says nothing about the drain then)
+		if late := took - (lastHandler.Sub(t0) + 2*time.Second + 1500*time.Millisecond); late > 0 && lastHandler.After(t0) && !expired && activeAtReturn == 0 {
 			res.f = stat.Failf("shutdown-waits-for-context", "scenario %d: all handlers had finished %v after Shutdown was called, yet Shutdown returned only after %v (context %d s; read-but-unanswered counters afterwards: %v)", si, lastHandler.Sub(t0).Round(10*time.Millisecond), took.Round(10*time.Millisecond), s.CtxTimeoutS, srv.VerifConnInvokes())
 			return res
 		}
@@ -346,7 +365,33 @@ func runScenario(si int, s Scenario) scenResult {
 	return res
 }
 
+// run executes the case; complaints about how long Shutdown took are confirmed by running
+// the case alone twice more (on an overloaded machine a second is not a second).
 func run(c Case) (*stat.Failure, bool) {
+	f, nt := runOnce(c)
+	if f == nil {
+		return nil, nt
+	}
+	switch f.Sig {
+	case "shutdown-hangs", "shutdown-too-slow", "shutdown-waits-for-context":
+		for i := 0; i < 2; i++ {
+			time.Sleep(500 * time.Millisecond)
+			g, _ := runOnce(c)
+			if g == nil {
+				st.Inconclusive()
+				return nil, nt
+			}
+			switch g.Sig {
+			case "shutdown-hangs", "shutdown-too-slow", "shutdown-waits-for-context":
+			default:
+				return g, nt
+			}
+		}
+	}
+	return f, nt
+}
+
+func runOnce(c Case) (*stat.Failure, bool) {
 	results := make([]scenResult, len(c.Scenarios))
 	var wg sync.WaitGroup
 	for i, s := range c.Scenarios {
@@ -382,6 +427,12 @@ var pinnedCases = map[string]Case{
 	}},
 	// a queue that takes longer to drain than the handle timeout: every queued request has
 	// been read and must still be answered
+	// a client that stops reading with a large response pending: Shutdown must still return
+	// when its context expires
+	"client-stops-reading": {Scenarios: []Scenario{
+		{MaxInvoke: 0, QueueCap: 64, ShutdownMs: 120, CtxTimeoutS: 4, Conns: []Conn{{SleepMs: []int{0}, BigReply: 0, SlowReaderMs: stalledMs}, {SleepMs: []int{50, 50}, BigReply: -1}}},
+		{MaxInvoke: 2, QueueCap: 8, ShutdownMs: 60, CtxTimeoutS: 4, Conns: []Conn{{SleepMs: []int{0, 0}, BigReply: 1, SlowReaderMs: stalledMs}}},
+	}},
 	"deep-queue-with-handle-timeout": {Scenarios: []Scenario{
 		{MaxInvoke: 1, QueueCap: 64, ShutdownMs: 100, CtxTimeoutS: 8, HandleTimeoutMs: 1000, Conns: []Conn{{SleepMs: []int{600, 600, 600, 600, 600, 600}, BigReply: -1}}},
 		{MaxInvoke: 2, QueueCap: 64, ShutdownMs: 50, CtxTimeoutS: 8, HandleTimeoutMs: 1000, Conns: []Conn{{SleepMs: []int{700, 700, 700, 700}, BigReply: -1}, {SleepMs: []int{700, 700, 700, 700}, BigReply: -1}}},
